@@ -2,8 +2,10 @@
 P21 = "Claripy.Props.C21."
 P22 = "Claripy.Props.C22."
 V = "Claripy.VSA."
-THEOREMS_C21 = [P21 + n for n in ("C21_add_sound", "sdiv_unsound", "mul_unaligned_unsound")] + \
-               [V + n for n in ("add_sound", "mem_new", "mem_top", "overflow_false", "cd_add", "wrappedCard_nat")]
+THEOREMS_C21 = [P21 + n for n in ("C21_add_sound", "C21_add_closed", "C21_sub_sound", "C21_sub_closed", "C21_neg_sound",
+                                  "sdiv_unsound", "mul_unaligned_unsound")] + \
+               [V + n for n in ("add_sound", "add_WF", "sub_sound", "sub_WF", "neg_sound", "neg_WF", "mem_new", "mem_top", "new_WF",
+                                "overflow_false", "cd_add", "cd_sub", "lastMember_facts", "wrappedCard_nat")]
 TESTS_C21 = [P21 + "test_add_example"]
 THEOREMS_C22 = [P22 + n for n in ("C22_top_mem", "C22_new_mem", "C22_pseudo_join_sup", "C22_lub_sup", "C22_union_sup",
                                   "widen_unsound", "widen_wrap_unsound", "widen_offset_unsound",
